@@ -223,6 +223,6 @@ func TestC16(t *testing.T) {
 	run.Cov["alphabet"] = map[string]any{"blocks": blocks, "threshold": thresholds, "total_shares": totals, "key_index_lists": "every subset of the recipients (ascending) and the list 0,0", "offered": "every subset of recipients x {with, without} one unrelated key", "extra": "18 configurations with an out-of-range key index"}
 	run.Assumptions = append(run.Assumptions,
 		"the share-distribution model in harness/ref/envelope_model.go (sequential hand-out, distinct share ids, grant reachable iff a listed key is offered) is what doc/ENVELOPE.md and envelope.proto describe",
-		"sealing randomness comes from a deterministic stream; payload/context come from a fixed menu; configurations outside the bound are not covered")
+		"BuildEnvelope is given a deterministic stream, but circl's Ristretto255 group ignores the reader and draws the secret from crypto/rand: share values differ from run to run and are never compared; payload/context come from a fixed menu; configurations outside the bound are not covered")
 	run.Finish(t)
 }
